@@ -128,6 +128,10 @@ WeirdProps == ("my-prop" :> [type |-> "string"]) @@ ("my prop" :> [type |-> "int
 SpecialSchemas ==
   [ sp_weirdnames |-> [type |-> "object", required |-> <<"my-prop">>, properties |-> WeirdProps],
     sp_addl_true  |-> [type |-> "object", properties |-> [a |-> [type |-> "string"]], additionalProperties |-> AnySchema],
+    \* property NAMES that are also options of a json struct tag (`json:"string"`): they are names
+    sp_optwords   |-> [type |-> "object", required |-> <<"string">>,
+                       properties |-> ("string" :> [type |-> "integer", format |-> "int32", minimum |-> 0]) @@ ("omitempty" :> [type |-> "boolean"])
+                                      @@ ("column" :> [type |-> "string"])],
     sp_tuple      |-> [type |-> "array", itemsTuple |-> <<[type |-> "string"], [type |-> "integer", minimum |-> 4]>>],
     sp_tuple_prop |-> [type |-> "object", properties |-> [t |-> [type |-> "array", itemsTuple |-> <<[type |-> "integer"], [type |-> "string", maxLength |-> 2]>>]]],
     sp_alias_uuid |-> [type |-> "string", format |-> "uuid"],
@@ -146,6 +150,8 @@ SpecialSchemas ==
     sp_cat        |-> [allOf |-> <<[ref |-> "sp_pet"], [type |-> "object", properties |-> [claws |-> [type |-> "integer", minimum |-> 2]]]>>],
     sp_dog        |-> [allOf |-> <<[ref |-> "sp_pet"], [type |-> "object", required |-> <<"bark">>, properties |-> [bark |-> [type |-> "string"]]]>>],
     sp_zoo        |-> [type |-> "object", properties |-> [star |-> [ref |-> "sp_pet"], all |-> [type |-> "array", items |-> [ref |-> "sp_pet"]]]],
+    \* a polymorphic holder that is also OPEN: additional properties (a schema) next to the property of the base type
+    sp_kennel     |-> [type |-> "object", properties |-> [title |-> [type |-> "string"], star |-> [ref |-> "sp_pet"]], additionalProperties |-> [type |-> "integer"]],
     \* a hierarchy whose subtype names its discriminator value with x-class
     sp_shape      |-> [type |-> "object", discriminator |-> "stype", required |-> <<"stype">>, properties |-> [stype |-> [type |-> "string"], label |-> [type |-> "string"]]],
     sp_circle     |-> ("allOf" :> <<[ref |-> "sp_shape"], [type |-> "object", properties |-> [radius |-> [type |-> "integer"]]]>>) @@ ("x-class" :> "org.example.Circle"),
@@ -159,6 +165,9 @@ SpecialInstances(name) ==
   CASE name = "sp_weirdnames" ->
          {Obj(("my-prop" :> Str("a"))), Obj(("my-prop" :> Str("a")) @@ ("my prop" :> Num(4)) @@ ("1st" :> Bool(TRUE)) @@ ("type" :> Str("ab")) @@ ("a.b" :> Num(2)) @@ ("Content-Type" :> Str("b"))),
           Obj(("my prop" :> Num(4))), Obj(("my-prop" :> Num(2))), Obj(("my-prop" :> Str("")) @@ ("1st" :> Bool(FALSE)))}
+    [] name = "sp_optwords" ->
+         {Obj(("string" :> Num(8)) @@ ("omitempty" :> Bool(TRUE)) @@ ("column" :> Str("a"))), Obj(("string" :> Num(0))), Obj(("string" :> Str("a"))),
+          Obj(("omitempty" :> Bool(FALSE))), Obj(("string" :> Num(-2)))}
     [] name = "sp_addl_true" ->
          {Obj(<<>>), Obj([a |-> Str("a")]), Obj([a |-> Str("a"), x |-> Num(4)]), Obj([x |-> Str("b"), y |-> Arr(<<Num(2)>>), z |-> Obj([k |-> Bool(TRUE)])]), Obj([a |-> Num(2)])}
     [] name = "sp_tuple" ->
@@ -179,6 +188,8 @@ SpecialInstances(name) ==
                                Obj([kind |-> Str("sp_sibling"), name |-> Str("a")])}
     [] name = "sp_feline" -> {Obj([kind |-> Str("sp_feline"), name |-> Str("a"), lives |-> Num(18)]), Obj([kind |-> Str("sp_feline"), name |-> Str("a")]),
                               Obj([kind |-> Str("sp_feline")])}
+    [] name = "sp_kennel" -> {Obj([title |-> Str("a"), star |-> Cat("a", 4), extra |-> Num(8), more |-> Num(0)]), Obj([star |-> Dog("b", "ab"), extra |-> Num(2)]),
+                              Obj([title |-> Str(""), extra |-> Num(4)]), Obj(<<>>), Obj([extra |-> Str("x")])}
     [] name = "sp_dog" -> {Dog("b", "ab"), Obj([kind |-> Str("sp_dog"), name |-> Str("b")])}
     [] name = "sp_shape" -> {Obj([stype |-> Str("org.example.Circle"), label |-> Str("a"), radius |-> Num(4)]), Obj([label |-> Str("a")])}
     [] name = "sp_circle" -> {Obj([stype |-> Str("org.example.Circle"), label |-> Str("a"), radius |-> Num(4)]), Obj([stype |-> Str("org.example.Circle")])}
